@@ -187,6 +187,23 @@ async def receive_bound():
             self.asked.append(n)
             return b"x" * n
 
+    class SilentTransport(FakeTransport):
+        async def receive(self, max_bytes=65536):
+            await asyncio.sleep(3600)  # the peer sends nothing more
+
+    # the SSL object still holds decrypted data of a record that was read only in part: receive() must hand it out without
+    # waiting for the transport
+    o = SSLObj()
+    tr = SilentTransport([], "receive_bound")
+    s = TLSStream(transport_stream=tr, standard_compatible=True, _ssl_object=o, _read_bio=ssl.MemoryBIO(), _write_bio=ssl.MemoryBIO())
+    tr.pump = s
+    try:
+        data = await asyncio.wait_for(s.receive(100), 1.0)
+    except asyncio.TimeoutError:
+        raise Fail("receive(100) waits for the transport although the SSL object holds decrypted data (incoming BIO empty, peer silent)") from None
+    if not (1 <= len(data) <= 100):
+        raise Fail(f"receive(100) returned {len(data)} bytes")
+
     for mb in (1, 100, 4096, 16384):
         o = SSLObj()
         tr = FakeTransport([], "receive_bound")
